@@ -69,6 +69,8 @@ def universe():
     e('i_foreign', Op(13, V('subjects', [(1, R['g_id'])]), None, False, None, False, NONE, None))
     e('i_str', Op(13, V('subjects', [(0, 'name'), (1, R['a_name'])]), 'ix', True, None, False, NONE, None))
     e('note', Op(10, 'a note'))
+    # g4: equal in every attribute to g1, another object
+    e('g4', Op(20, 'g', [R['tA']], None, None, None))
     # tI: alias equal to its OWN full name (D36) — appended last so that earlier slots keep their numbers
     col('i_id', 'id')
     e('tI', Op(14, 'self', 'public', 'public.self', [R['i_id']], [], NONE, None, None, False, []))
@@ -95,6 +97,7 @@ def alphabet(R, level):
     # renames (D6 territory)
     A.append(('tA.name=renamed', [Op(60, R['tA'], 1, vs('renamed'))]))
     A.append(('tG.name=renamed2', [Op(60, R['tG'], 1, vs('renamed2'))]))      # a table without alias
+    A.append(('delete(g4)', [Op(40, 0, db, R['g4'])]))                         # the twin of g1 that is never added
     if level >= 1:
         A.append(('tA.schema=s2', [Op(60, R['tA'], 2, vs('s2'))]))
         A.append(('tA.alias=None', [Op(60, R['tA'], 3, NONE)]))
